@@ -32,12 +32,12 @@ CLAIMED.update({
    technique="custom static analysis over rustc HIR: dominance of rejecting comparisons over effects, write-shape matching, who-may-write rule for lower_k",
    ref="DESIGN.md §4 C05"),
  "C06": dict(category="other",
-   text=STRUCT_TXT % "registers never decrease (guarded writes, element-wise max merge, no other writer, no mutation through a reference), the candidate register value has the shape max(0, min(q+1, floor(1 - ln x / ln b))) and every item makes its m draws at the cumulated spacings Exp1/(a(m-t)) (equality of rational functions) after resetting the slot permutation, reinit re-establishes the constructor state and the pruning bound, default() builds what new(default parameters) builds, and the sketcher's estimate and the parallel estimator reduce to the same normal form",
-   technique="custom static analysis over rustc HIR: guarded-write and writer rules, sibling normal-form comparison of the two estimators",
+   text=STRUCT_TXT % "registers never decrease (guarded writes, element-wise max merge, no other writer, no mutation through a reference), the candidate register value has the shape max(0, min(q+1, floor(1 - ln x / ln b))) and every item makes its m draws at the cumulated spacings Exp1/(a(m-t)) (equality of rational functions) after resetting the slot permutation, reinit re-establishes the constructor state and the pruning bound, default() builds what new(default parameters) builds, the sketcher's estimate and the parallel estimator both equal m(1-1/b)/(a ln b SUM b^-K) as rational functions of the fields and the register sum, ln b being stored by every constructor as ln of the stored b, and the advertised relative standard deviation is sqrt(((b+1)/(b-1) ln b - 1)/m)",
+   technique="custom static analysis over rustc HIR: guarded-write and writer rules, rational-function normal forms (polynomial cross-multiplication) for the estimator formulas and the spacing of the draw sequence, sibling comparison of the two estimators",
    ref="DESIGN.md §4 C06"),
  "C07": dict(category="other",
-   text=STRUCT_TXT % "get_jaccard_bounds has no panic edge other than an argument precondition (MIR panic-edge inventory); structural preconditions of the collision model on SetSketcher::sketch: guarded register writes of the candidate value of the stated shape, legitimate early exits and full draw range, the spacing Exp1/(a(m-t)) of successive points (equality of rational functions), sound pruning bound, per-item seed and permutation reset, default() consistent with new()",
-   technique="panic-edge inventory on rustc MIR with structural classification of precondition assertions",
+   text=STRUCT_TXT % "get_jaccard_bounds has no panic edge other than an argument precondition (MIR panic-edge inventory) and returns the statement's formulas J_up = (b^p-1)/(b-1), J_low = max(0, 2(b^(p/2+1/2)-1)/(b-1) - 1) (equality of rational functions with powers of b merged); structural preconditions of the collision model on SetSketcher::sketch: guarded register writes of the candidate value of the stated shape, legitimate early exits and full draw range, the spacing Exp1/(a(m-t)) of successive points (equality of rational functions), sound pruning bound, per-item seed and permutation reset, default() consistent with new()",
+   technique="panic-edge inventory on rustc MIR with structural classification of precondition assertions; rational-function normal forms with merged powers for the bounds formulas; guarded-write, loop-exit and seeding rules over HIR",
    ref="DESIGN.md §4 C07"),
  "C09": dict(category="other",
    text=STRUCT_TXT % "densify writes only under !init[t], reads only under init[s], copies value and hash together, keeps init/nb_empty in step; the finisher is called once under no foreign condition; an empty-stream guard with Err return dominates every search loop; the u32 view depends on the u64 view and a literal only; panic-edge inventory of the finishing path",
